@@ -112,3 +112,241 @@ fn run_case(case: &Val) -> Val {
 fn verif_grpc_cases() {
     val::run_cases(run_case);
 }
+
+// ---------------------------------------------------------------------------
+// Property C13, connection layer: the real add_rpki / delete_rpki / enable_rpki / disable_rpki /
+// reset_rpki API functions, the real RpkiClient::try_connect task and serve() over a loopback TCP
+// connection to a cache played by this harness (model: coq/Model/RtrConn.v).
+//
+//   case = [ops]
+//   op = [0]                         add_rpki              wait: [expect_accept]
+//      | [1]                         delete_rpki           wait: [expect_eof]
+//      | [2]                         enable_rpki           wait: [expect_accept]
+//      | [3]                         disable_rpki          wait: [expect_eof]
+//      | [4]                         reset_rpki (hard)     wait: [expect_eof, expect_accept]
+//      | [5]                         reset_rpki (soft)     wait: [expect_query]
+//      | [6, [bytes], total, q]      the cache writes one TCP segment; then wait until the client's
+//                                    RpkiState counters of received PDUs add up to `total`; q = 1 when a
+//                                    Serial Query is due afterwards (a pending soft reset)
+//      | [7]                         the cache closes the connection; wait until up = false
+//   every op carries its waits as trailing fields: op = [kind, args.., [w_eof, w_accept, w_query]]
+//   observation per op = [status, [bytes read from the client], table, state]
+//     status = gRPC code of the API call (0 = ok; 0 for cache-side ops), or -3 when an expected event did
+//              not happen within the time limit
+//     table  = [[4|6, [octets], mask, maxlen, asn, 0], ...]
+//     state  = [serial, end_of_data count, up] of the registered client, [] when not registered
+async fn conn_dump(svc: &GrpcService, sockaddr: &SocketAddr) -> (Val, Val) {
+    let mut out = Vec::new();
+    for fam in [packet::Family::IPV4, packet::Family::IPV6] {
+        for (net, roa) in svc.tables.collect_roa(fam) {
+            let (f, bytes, mask) = match &net {
+                packet::IpNet::V4(n) => (4u8, n.addr.octets().to_vec(), n.mask),
+                packet::IpNet::V6(n) => (6u8, n.addr.octets().to_vec(), n.mask),
+            };
+            out.push(Val::L(vec![
+                Val::n(f),
+                Val::from_bytes(&bytes),
+                Val::n(mask),
+                Val::n(roa.max_length),
+                Val::n(roa.as_number),
+                Val::n(0u8),
+            ]));
+        }
+    }
+    let global = svc.global.read().await;
+    let st = match global.rpki_clients.get(sockaddr) {
+        None => Val::L(vec![]),
+        Some(c) => Val::L(vec![
+            Val::n(c.state.serial.load(Ordering::Relaxed)),
+            Val::I(c.state.end_of_data.load(Ordering::Relaxed) as i128),
+            Val::b(c.state.up.load(Ordering::Relaxed)),
+        ]),
+    };
+    (Val::L(out), st)
+}
+
+async fn conn_received(svc: &GrpcService, sockaddr: &SocketAddr) -> i64 {
+    let global = svc.global.read().await;
+    match global.rpki_clients.get(sockaddr) {
+        None => -1,
+        Some(c) => {
+            let s = &c.state;
+            s.received_ipv4.load(Ordering::Relaxed)
+                + s.received_ipv6.load(Ordering::Relaxed)
+                + s.serial_notify.load(Ordering::Relaxed)
+                + s.cache_reset.load(Ordering::Relaxed)
+                + s.cache_response.load(Ordering::Relaxed)
+                + s.end_of_data.load(Ordering::Relaxed)
+                + s.error.load(Ordering::Relaxed)
+        }
+    }
+}
+
+const CONN_WAIT: std::time::Duration = std::time::Duration::from_secs(8);
+
+async fn conn_read_exact(s: &mut tokio::net::TcpStream, n: usize) -> Option<Vec<u8>> {
+    use tokio::io::AsyncReadExt;
+    let mut buf = vec![0u8; n];
+    match tokio::time::timeout(CONN_WAIT, s.read_exact(&mut buf)).await {
+        Ok(Ok(_)) => Some(buf),
+        _ => None,
+    }
+}
+
+// the client closes its end: read returns 0 (or a reset); bytes still in flight are dropped
+async fn conn_wait_eof(s: &mut tokio::net::TcpStream) -> bool {
+    use tokio::io::AsyncReadExt;
+    let mut buf = [0u8; 256];
+    let r = tokio::time::timeout(CONN_WAIT, async {
+        loop {
+            match s.read(&mut buf).await {
+                Ok(0) | Err(_) => return,
+                Ok(_) => {}
+            }
+        }
+    })
+    .await;
+    r.is_ok()
+}
+
+async fn run_conn_async(case: &Val) -> Val {
+    use tokio::io::AsyncWriteExt;
+    let svc = service();
+    let listener = tokio::net::TcpListener::bind("127.0.0.1:0").await.expect("bind");
+    let sockaddr = listener.local_addr().expect("local_addr");
+    let address = "127.0.0.1".to_string();
+    let port = sockaddr.port() as u32;
+    let mut live: Option<tokio::net::TcpStream> = None;
+    let mut obs = Vec::new();
+    let code = |r: Result<(), tonic::Status>| -> i128 {
+        match r {
+            Ok(()) => 0,
+            Err(s) => s.code() as i32 as i128,
+        }
+    };
+    for op in case.at(0).list() {
+        let kind = op.at(0).int();
+        let waits = op.list().last().expect("waits").clone();
+        let (w_eof, w_accept, w_query) = (waits.at(0).int() != 0, waits.at(1).int() != 0, waits.at(2).int() != 0);
+        let mut status: i128 = 0;
+        let mut wrote: Vec<u8> = Vec::new();
+        match kind {
+            0 => {
+                status = code(
+                    svc.add_rpki(tonic::Request::new(api::AddRpkiRequest { address: address.clone(), port, lifetime: 0 }))
+                        .await
+                        .map(|_| ()),
+                )
+            }
+            1 => {
+                status = code(
+                    svc.delete_rpki(tonic::Request::new(api::DeleteRpkiRequest { address: address.clone(), port })).await.map(|_| ()),
+                )
+            }
+            2 => {
+                status = code(
+                    svc.enable_rpki(tonic::Request::new(api::EnableRpkiRequest { address: address.clone(), port })).await.map(|_| ()),
+                )
+            }
+            3 => {
+                status = code(
+                    svc.disable_rpki(tonic::Request::new(api::DisableRpkiRequest { address: address.clone(), port })).await.map(|_| ()),
+                )
+            }
+            4 | 5 => {
+                status = code(
+                    svc.reset_rpki(tonic::Request::new(api::ResetRpkiRequest { address: address.clone(), port, soft: kind == 5 }))
+                        .await
+                        .map(|_| ()),
+                )
+            }
+            6 => {
+                if let Some(s) = live.as_mut() {
+                    let _ = s.write_all(&op.at(1).bytes()).await;
+                    let _ = s.flush().await;
+                }
+                let total = op.at(2).int() as i64;
+                let t0 = std::time::Instant::now();
+                loop {
+                    if conn_received(&svc, &sockaddr).await >= total {
+                        break;
+                    }
+                    if t0.elapsed() > CONN_WAIT {
+                        status = -3;
+                        break;
+                    }
+                    tokio::time::sleep(std::time::Duration::from_millis(1)).await;
+                }
+            }
+            7 => {
+                live = None;
+                let t0 = std::time::Instant::now();
+                loop {
+                    let up = {
+                        let global = svc.global.read().await;
+                        global.rpki_clients.get(&sockaddr).map(|c| c.state.up.load(Ordering::Relaxed)).unwrap_or(false)
+                    };
+                    if !up {
+                        break;
+                    }
+                    if t0.elapsed() > CONN_WAIT {
+                        status = -3;
+                        break;
+                    }
+                    tokio::time::sleep(std::time::Duration::from_millis(1)).await;
+                }
+            }
+            k => panic!("verif: bad conn op {}", k),
+        }
+        if w_eof {
+            match live.take() {
+                Some(mut s) => {
+                    if !conn_wait_eof(&mut s).await {
+                        status = -3;
+                    }
+                }
+                None => status = -3,
+            }
+        }
+        if w_accept {
+            match tokio::time::timeout(CONN_WAIT, listener.accept()).await {
+                Ok(Ok((mut s, _))) => {
+                    match conn_read_exact(&mut s, 8).await {
+                        Some(b) => wrote.extend_from_slice(&b),
+                        None => status = -3,
+                    }
+                    live = Some(s);
+                }
+                _ => status = -3,
+            }
+        }
+        if w_query {
+            match live.as_mut() {
+                Some(s) => match conn_read_exact(s, 12).await {
+                    Some(b) => wrote.extend_from_slice(&b),
+                    None => status = -3,
+                },
+                None => status = -3,
+            }
+        }
+        // let the tasks that were woken by this op run to their next wait
+        for _ in 0..4 {
+            tokio::task::yield_now().await;
+        }
+        let (table, st) = conn_dump(&svc, &sockaddr).await;
+        obs.push(Val::L(vec![Val::I(status), Val::from_bytes(&wrote), table, st]));
+    }
+    // end of the case: stop whatever task is left
+    let _ = svc.delete_rpki(tonic::Request::new(api::DeleteRpkiRequest { address, port })).await;
+    Val::L(obs)
+}
+
+fn run_conn_case(case: &Val) -> Val {
+    let rt = tokio::runtime::Builder::new_current_thread().enable_all().build().expect("runtime");
+    rt.block_on(run_conn_async(case))
+}
+
+#[test]
+fn verif_rpki_conn_cases() {
+    val::run_cases(run_conn_case);
+}
